@@ -189,6 +189,22 @@ def ordering_rule(repo: Repo, m: ModuleInfo, res: CheckResult, prop: str = "C15"
             if not tuple_branch:
                 problems.append("a tuple argument (the parameter list of Callable) is keyed with repr(), which prints the "
                                 "normalised parameter types together with their source spelling (List[int] vs list[int])")
+            # the arguments of a nested Literal reach the leaf: repr() is injective on str / int / bytes / bool / None but not
+            # on enum members (`<A.X: 1>` for every class named A) -- they need the identity of their class like in
+            # _LiteralNormType._make_orderable
+            enum_branch = False
+            for node in ast.walk(mo):
+                tests = []
+                if isinstance(node, ast.If):
+                    tests.append((node.test, node.body))
+                if isinstance(node, ast.IfExp):
+                    tests.append((node.test, [node.body]))
+                for test, body in tests:
+                    if f"isinstance({obj}, Enum)" in norm(test) or f"isinstance(type({obj}), EnumMeta)" in norm(test):
+                        enum_branch = enum_branch or any(f"id(type({obj}))" in norm(s_) for s_ in body)
+            if not enum_branch:
+                problems.append("an enum member (argument of a nested Literal) is keyed with repr() only: members of two enum classes "
+                                "with the same name tie (Union[List[Literal[A1.X]], List[Literal[A2.X]]] keeps the written order)")
         leaf = [r for r in rets if isinstance(r.value, ast.Call) and norm(r.value.func) in ("str", "repr")
                 and r.value.args and norm(r.value.args[0]) == obj]
         leaf += [r.value.orelse for r in rets if isinstance(r.value, ast.IfExp)]  # type: ignore[misc]
